@@ -117,7 +117,7 @@ PROPS = {
               "an evaluation-map check, or one module-level dft/idft call (N, a/dft/res limb counts, stride, variant); "
               "distinct by descriptor hash; non-trivial when n >= 2 and the input is not constant zero"
              " Later additions have their own keys in by_case_class (DESIGN.md 5.1): call sequences and object life cycles, multi-threaded cases (also run under ThreadSanitizer), sweeps over every value of a size parameter, placement / alignment / data-structure modes drawn from the case hash."),
-        require={"all": ["limbs_checked_in_vectors_over_4GiB", "concurrent_lifecycle_uses", "roundtrips_checked", "linearity_checked", "convolutions_checked", "horner_evaluations", "spectrum_limbs_checked", "concurrently_built_tables", "lifecycle_uses", "concurrent_entry_calls", "same_buffers_other_data_calls",
+        require={"all": ["volume_roundtrips", "limbs_checked_in_vectors_over_4GiB", "concurrent_lifecycle_uses", "roundtrips_checked", "linearity_checked", "convolutions_checked", "horner_evaluations", "spectrum_limbs_checked", "concurrently_built_tables", "lifecycle_uses", "concurrent_entry_calls", "same_buffers_other_data_calls",
                          "module_roundtrip_limbs"]},
         assumptions=["oracle works on the residues of the 64-bit lanes modulo each prime; convolution by schoolbook "
                      "(n<=256) or an oracle-side NTT with its own root search",
